@@ -234,6 +234,14 @@ func checkC09(a *checkArgs, r *Result) error {
 		bases = append(bases, base{"lzma2", "corpus/F18", "lc0 lp2 pb4 dict65536", func(w io.Writer) (wcloser, error) { return cfg.NewWriter2(w) },
 			[]string{"w" + hxe(rd), "w" + hxe(d2), "f", "w" + hxe(d3), "c"}, append(append(append([]byte{}, rd...), d2...), d3...), false})
 	}
+	{
+		// a chunk that ends because it holds exactly 2 MiB of uncompressed data (the Write loop itself flushes it),
+		// then more calls: the sink failing while THAT chunk is written leaves written() at the limit
+		z := make([]byte, 1<<21)
+		cfg := lzma.Writer2Config{DictCap: 65536, BufSize: 4096}
+		bases = append(bases, base{"lzma2", "full-chunk/2MiB", "lc3 lp0 pb2 dict65536", func(w io.Writer) (wcloser, error) { return cfg.NewWriter2(w) },
+			[]string{"w" + hxe(z[:1000]), "w" + hxe(z[1000:]), "w" + hxe([]byte("tail")), "f", "w" + hxe([]byte("x")), "c"}, append(append(append([]byte{}, z...), []byte("tail")...), 'x'), false})
+	}
 	type job struct {
 		b    base
 		k, m int
